@@ -56,6 +56,18 @@ theorem slice?_to_end {msg : Bytes} {ts : Nat} {tok : Bytes} (h : msg.drop ts = 
   unfold slice?
   rw [if_pos ⟨hts, Nat.le_refl _⟩]; simp [h]
 
+/-- the cut of an unquoted value is the whole token -/
+theorem valueTok?_unquoted (msg : Bytes) (ts i : Nat) : valueTok? msg false ts i = slice? msg ts i := by
+  simp [valueTok?]
+
+/-- the cut of a quoted value whose token starts with byte `b`: one byte in (the quote), two if `b = 'B'` -/
+theorem valueTok?_quoted {msg : Bytes} {ts i : Nat} {b : UInt8} {r : Bytes} (h : msg.drop ts = b :: r) :
+    valueTok? msg true ts i = slice? msg ((if b = 66 then ts + 1 else ts) + 1) (i - 1) := by
+  have hb : index? msg ts = some b := by
+    have := congrArg (fun l => l[0]?) h
+    simpa [index?, List.getElem?_drop] using this
+  simp [valueTok?, hb]
+
 /-- what the loop does with the result of one pass at index `i` -/
 def StepR.next (msg : Bytes) (p : Bool) (i : Nat) : StepR → Out
   | .cont skip st' res' => loop msg p (if skip then i + 2 else i + 1) st' res'
